@@ -59,11 +59,11 @@ def gen_unit(args):
     return dict(unit=unit, error=res.error, cover=res.cover, paths=res.paths, file=res.file,
                 line=res.line, hash=res.source_hash, dropped=res.dropped, inlined=res.inlined,
                 externs=res.externs, contracts=res.contracts, gen_time=res.gen_time, obligations=obs,
-                feas_calls=eng.feas_calls, stmts=eng.stmts_seen)
+                feas_calls=eng.feas_calls, stmts=eng.stmts_seen, degraded=getattr(res, 'degraded', []), anchor_drift=getattr(res, 'anchor_drift', []))
   except Exception as e:   # engine crash: undecided, never a violation
     return dict(unit=unit, error='engine crash: %s\n%s' % (e, traceback.format_exc()[-1500:]), obligations=[],
                 cover=None, paths=0, file=None, line=None, hash=None, dropped=[], inlined=[], externs=[],
-                contracts=[], gen_time=0.0, feas_calls=0, stmts=0)
+                contracts=[], gen_time=0.0, feas_calls=0, stmts=0, degraded=[], anchor_drift=[])
 
 
 # z3 configurations tried in order (refutation portfolio); budgets are fractions of the
@@ -224,6 +224,9 @@ def run_check(prop, tier, repo, jobs, seed, record_baseline=False):
   failed = [ob for ob in all_obs if ob['status'] == 'failed']
   unknown = [ob for ob in all_obs if ob['status'] == 'unknown']
   hash_of = dict((g['unit'], g['hash']) for g in gens)
+  # units whose (changed) text the sidecar covers only in part: the uncovered parts were over-approximated or their
+  # ghost blocks skipped, so only refutations that replay on the real code are believed; everything else is undecided
+  degraded = dict((g['unit'], g['degraded']) for g in gens if g.get('degraded'))
   baseline = load_baseline(prop)
   known_hits = []
   suspects = []
@@ -259,6 +262,9 @@ def run_check(prop, tier, repo, jobs, seed, record_baseline=False):
       if confirmed:
         vio_records.append((ob, path, True))
         lines.append('VIOLATION property=%s replay=%s' % (prop, path))
+      elif ob['unit'] in degraded:
+        undecided_obs.append(ob)
+        continue
       elif ob['status'] == 'failed' or (was_proved and changed):
         # the solver refuted the obligation (or it was discharged on the unchanged tree and the
         # function's text has changed since) but no input reproduces on the real code
@@ -272,6 +278,8 @@ def run_check(prop, tier, repo, jobs, seed, record_baseline=False):
   unknown = undecided_obs
   for g in errors:
     lines.append('UNDECIDED property=%s unit=%s %s' % (prop, g['unit'], (g['error'] or '').split('\n')[0]))
+  for u, why in sorted(degraded.items()):
+    lines.append('UNDECIDED property=%s unit=%s sidecar does not cover the current text: %s' % (prop, u, '; '.join(why)[:300]))
   for ob in unknown:
     lines.append('UNDECIDED property=%s obligation=%s::%s %s' % (prop, ob['unit'], ob['name'], ob.get('reason', '')[:160]))
   n_ob = len(all_obs)
@@ -287,7 +295,7 @@ def run_check(prop, tier, repo, jobs, seed, record_baseline=False):
     lines.append('UNDECIDED property=%s unit=%s precondition cover check inconclusive' % (prop, g['unit']))
   if violations:
     code = 1
-  elif errors or unknown or n_ob < expected or covers:
+  elif errors or unknown or n_ob < expected or covers or degraded:
     code = 2
   else:
     code = 0
